@@ -299,6 +299,83 @@ def cfi_walker(res, prog, cu, rid='C04.9'):
             res.violation(rid, rid + '|accessor|%s' % meth, gs[0] if gs else f, (gs[0] if gs else f).line, 'FrameWalker::%s does not return %s' % (meth, fld))
 
 
+def mips_abi_dispatch(res, prog, cu):
+    """C04.10: a MIPS walk stays in one ABI.  get_caller_frame chooses the o32 or the n64 code by Mips32Context::try_from,
+    i.e. by the CPU type in the callee context's flags; so (a) that predicate is `flags contain CONTEXT_MIPS64 => 64-bit,
+    anything else => 32-bit` (a scanned o32 frame carries no CPU bits at all), and (b) every context a scan builds for
+    the caller is classified like the callee it came from: the 64-bit scan hands on the callee's context_flags, the
+    32-bit scan hands on those or none.  (The CFI path clones the callee context: C04.9.)"""
+    res.rule('C04.10', 0, floor=3, note='MIPS: the 32/64-bit dispatch predicate, and the context flags the two scans give the caller frame')
+    tf = [f for f in cu.fns if re.search(r'Mips32Context as std::convert::TryFrom<.*CONTEXT_MIPS>>::try_from$', f.path)]
+    res.rule('C04.10', 1)
+    if len(tf) != 1:
+        res.error('C04.10', 'Mips32Context::try_from not found')
+    else:
+        f = tf[0]
+        sw = [(b, f.blocks[b]['t']) for b in sorted(f.reach) if f.blocks[b]['t']['k'] == 'switch']
+        ok = False
+        why = 'no single test of the context flags'
+        if len(sw) == 1:
+            b, t = sw[0]
+            cond = f.expand(f.operand_tree(t['x']))
+            neg = False
+            while cond[0] == 'un' and cond[1] == 'Not':
+                cond, neg = cond[2], not neg
+            good = (is_call(cond, 'contains') and is_call(cond[2], 'ContextFlagsCpu::from_flags') and show(cond[2][2]) in ('ctx.context_flags', 'ctx.0.context_flags')
+                    and cond[3] == ('item', 'minidump::format::ContextFlagsCpu::CONTEXT_MIPS64'))
+            if not good:
+                why = 'the dispatch tests %s, not `from_flags(ctx.context_flags).contains(CONTEXT_MIPS64)`' % show(cond)[:160]
+            else:
+                false_t = dict((v, tg) for v, tg in t['ts']).get(0)
+                true_t = t['o'] if false_t is not None else None
+                if neg:
+                    false_t, true_t = true_t, false_t
+                outs = {}
+                for (rb, ri, tr) in ret_assigns(f):
+                    v = show(f.expand(tr))
+                    kind = 'Err' if v.startswith('(adt std::result::Result::Err') else 'Ok' if v.startswith('(adt std::result::Result::Ok') else '?'
+                    for side, tgt in (('true', true_t), ('false', false_t)):
+                        if tgt is not None and (rb == tgt or f.dominates(tgt, rb)):
+                            outs.setdefault(side, set()).add(kind)
+                ok = outs.get('true') == {'Err'} and outs.get('false') == {'Ok'}
+                if not ok:
+                    why = 'CONTEXT_MIPS64 set gives %s, clear gives %s (expected Err = 64-bit / Ok = 32-bit)' % (sorted(outs.get('true', [])), sorted(outs.get('false', [])))
+        if not ok:
+            res.violation('C04.10', 'C04.10|predicate', f, f.line, why)
+    views, absorbed = with_helpers(prog, 'minidump_unwind', r'^minidump_unwind::mips::get_caller_(by_\w+|frame)(::\{closure#\d+\})*$')
+    seen = 0
+    for path, f in sorted(views.items()):
+        m = re.search(r'mips::get_caller_by_scan(32|64)::\{closure#0\}$', path)
+        if not m:
+            continue
+        width = m.group(1)
+        flags = []
+        for b in sorted(f.reach):
+            for s_ in f.blocks[b]['s']:
+                if s_['k'] == 'assign' and s_['rv']['k'] == 'agg' and s_['rv'].get('ak') == 'adt' and s_['rv']['adt'].endswith('format::CONTEXT_MIPS'):
+                    vals = dict(zip(s_['rv']['fields'], s_['rv']['xs']))
+                    flags.append((show(f.expand(f.operand_tree(vals['context_flags']))), s_.get('line')))
+        defaults = [t.get('line') for b, t in f.calls() if re.search(r'CONTEXT_MIPS as std::default::Default>::default$', f.callee(t))]
+        # writes of the field after construction
+        later = [(show(place), show(f.expand(rv)), f.blocks[pb]['s'][pi].get('line')) for (pb, pi, place, rv) in part_assigns(f, 'context_flags')]
+        res.rule('C04.10', 1)
+        seen += 1
+        if not flags and not defaults:
+            res.violation('C04.10', 'C04.10|scan%s|ctx' % width, f, f.line, 'cannot find the context the scan builds for the caller')
+            continue
+        srcs = [x for x, ln in flags] + [x for _, x, ln in later]
+        if not flags and not later:
+            srcs = ['(default)']
+        callee = ('ctx.context_flags', 'ctx.0.context_flags', '(deref ctx).context_flags', '(deref ctx).0.context_flags')
+        for x in srcs:
+            if width == '64' and x not in callee:
+                res.violation('C04.10', 'C04.10|scan64|flags', f, (flags or [(0, f.line)])[0][1], 'the 64-bit scan gives the caller frame the context flags %s: without the callee\'s CPU type the next step unwinds it as mips32' % x)
+            if width == '32' and x not in callee and x not in ('(default)', '0') and 'Default>::default).context_flags' not in x:
+                res.violation('C04.10', 'C04.10|scan32|flags', f, (flags or [(0, f.line)])[0][1], 'the 32-bit scan gives the caller frame the context flags %s (expected the callee\'s, or none)' % x)
+    if seen != 2:
+        res.error('C04.10', 'expected the two MIPS scan functions, found %d' % seen)
+
+
 def run(tier, t0):
     res = harness.Result(PID)
     prog = program()
@@ -321,6 +398,7 @@ def run(tier, t0):
     fpo.fpo_formulas(res, prog, 'C04.7')
     ptr_auth(res, prog, cu)
     cfi_walker(res, prog, cu)
+    mips_abi_dispatch(res, prog, cu)
     res.assumptions += ['that frames, registers and names come out right for a given stack is behavioural: a fault inside a technique\'s arithmetic is invisible to these rules']
     return harness.finish(res, tier, t0, distinct=9, explanation=(
         'Narrow claim: necessary structural conditions of correct walking. Technique priority and retry discipline in each architecture, technique labels, MIR-level equality of the arm64 / arm64_old twins modulo the context type, '
